@@ -474,13 +474,19 @@ def run(tier, seed, which="C11"):
         ob = c11actor.obligation(tier, seed, "s11_2_actor_reverse_map" if which == "C11" else "s12_2_actor_disconnect")
         actor_hist = ob.pop("_validate", [])
         obligations.append(ob)
+    index_hist = []
+    if which == "C11":
+        from . import c11index
+        iob = c11index.run(tier, seed)
+        index_hist = iob.pop("_validate", [])
+        obligations.append(iob)
     import os
     extra = {"h_timeout": H_TIMEOUT, "o_timeout": O_TIMEOUT}
     if not os.environ.get("VERIF_NO_NATIVE"):
         for ob in obligations:
             ops = ob.pop("_ops", None)
             if ob.get("verdict") == "violation" and ops:
-                rr = native_histories(which, "c11actor" if "actor" in ob["harness"] else "c11", "violation", [{"ops": ops}],
+                rr = native_histories(which, "c11index" if ob["harness"].startswith("s11_3") else "c11actor" if "actor" in ob["harness"] else "c11", "violation", [{"ops": ops}],
                                       dict(extra, obligation=ob["harness"], model=ob.get("counterexample")), ob["message"])
                 ob["replay_path"] = rr["path"]
                 ob["replay"] = {"path": rr["path"], "outcome": rr["outcome"], "message": rr["message"]}
@@ -506,6 +512,12 @@ def run(tier, seed, which="C11"):
             if val["outcome"] != "passed":
                 obligations.append({"engine": "smt", "harness": "s11_translator_validation_actor", "verdict": "inconclusive", "queries": 0, "solver_s": 0,
                                     "message": "the real NamingActor and the encoding disagree on a sampled history: %s" % val["message"]})
+        if index_hist:
+            val = native_histories(which, "c11index", "validate", index_hist, extra)
+            info["translator_validation_index"] = val
+            if val["outcome"] != "passed":
+                obligations.append({"engine": "smt", "harness": "s11_translator_validation_index", "verdict": "inconclusive", "queries": 0, "solver_s": 0,
+                                    "message": "the real NamingActor breaks an expectation the encoding discharged on a sampled history: %s" % val["message"]})
     for ob in obligations:
         ob.pop("_ops", None)
         ob.pop("_validate", None)
